@@ -178,3 +178,19 @@ Definition detect_peak_i (f : ifmt) (which : Z) (fr : list Z) : res (list Z) :=
   | _ => Ok (neg_half_frame_i f fr)
   end.
 Definition peak_out_fmt (f : ifmt) (which : Z) : ifmt := match which with 0 => signed_fmt f | _ => f end.
+
+(* a run of the peak detector over integer frames (gains fixed): detect, then update *)
+Fixpoint idet_run (f : ifmt) (which : Z) (dt : idetector) (frames : list (list Z)) : res (list (list Z)) :=
+  match frames with
+  | [] => Ok []
+  | fr :: t =>
+    let* d := detect_peak_i f which fr in
+    let* (e, dt') := idet_next (peak_out_fmt f which) dt d in
+    let* r := idet_run f which dt' t in
+    Ok (e :: r)
+  end.
+
+(* Known class K2 (DESIGN section 7): integer frame format, full-wave (0) or negative-half-wave (2)
+   peak detector, some channel of some input frame at the format's minimum amplitude. *)
+Definition KnownClass_K2 (f : ifmt) (which : Z) (frames : list (list Z)) : Prop :=
+  (which = 0 \/ which = 2) /\ exists fr, In fr frames /\ In (imin f) fr.
